@@ -70,6 +70,8 @@ func main() {
 				emitPrimCases(w, r, *thorough)
 			case "calc":
 				emitCalcCases(w, r, *thorough)
+			case "reg":
+				emitRegCases(w, r, *thorough)
 			case "msg":
 				emitMsgCases(w, r, *rounds, parseOnly(*only))
 			default:
